@@ -4,6 +4,7 @@ From Coq Require Import List String Arith NArith Bool Lia ZifyN ZifyNat ZifyBool
 Import ListNotations.
 From GMQ Require Import Base.Bytes Codec.Desc Codec.Prim Codec.Value Codec.MethodCodec Codec.Header Codec.Frame Codec.Records
      Codec.SpecCheck Codec.Codec.
+From GMQ Require Import Codec.Grammar.
 From GMQ Require Import Codec.gen.MethodsGen Codec.gen.TagsGen Codec.gen.ConstGen Codec.gen.SpecGen.
 From GMQ Require Import Proofs.CodecPrimProofs Proofs.CodecValueProofs Proofs.CodecMethodProofs.
 Open Scope N_scope.
@@ -23,6 +24,13 @@ Lemma gen_methods_from_source : forallb (fun m => negb (m_from_spec m)) all_meth
 Proof. vm_compute. reflexivity. Qed.
 
 Lemma gen_tags_inverse : tags_ok rd_gen wr_gen D091 = true /\ tags_ok rd_gen wr_gen DRabbit = true.
+Proof. split; vm_compute; reflexivity. Qed.
+
+(* the field-value tag letters and layouts are those of the specifications (Codec/Grammar.v, written
+   from the AMQP 0-9-1 grammar and RabbitMQ's errata, not from the code) *)
+Lemma gen_tags_match_grammar :
+  tags_match_grammar reader_091 writer_091 grammar_091 = true /\
+  tags_match_grammar reader_rabbit writer_rabbit grammar_rabbit = true.
 Proof. split; vm_compute; reflexivity. Qed.
 
 Lemma gen_methods_match_spec : spec_available = true /\ methods_match_spec all_methods spec_methods = true.
